@@ -15,6 +15,7 @@ K.register_module("assignment", "src/compiler/expression/assignment.rs", "compil
 K.register_module("runtime", "src/compiler/runtime.rs", "compiler::runtime::kani_verif", "compiler")
 K.register_module("std_del", "src/stdlib/del.rs", "stdlib::del::kani_verif", STD)
 K.register_module("std_exists", "src/stdlib/exists.rs", "stdlib::exists::kani_verif", STD)
+K.register_module("crud", "src/value/value/crud/mod.rs", "value::value::crud::kani_verif", "compiler")
 K.register_module("op", "src/compiler/expression/op.rs", "compiler::expression::op::kani_verif", "compiler")
 
 COMMON_TRUSTED = [
